@@ -92,6 +92,8 @@ type Path struct {
 	fs        map[string]*memFile
 	markers   map[int]*Term
 	hashPre   map[string]string // hex hash -> preimage (symstr.go)
+	flMemo    map[*Term]*Term
+	fdivInfo  map[*Term][2]*Term // abstract float quotient -> (x, y) wide integer terms (fpcut.go)
 	sigs      map[string][2]string // ideal signatures made in this run: sig -> (public key hex, signed hash hex)
 	keyCounter int
 	fpCuts    int
